@@ -441,6 +441,88 @@ proof fn lemma_absolute_translated(sb: Seq<u8>, nl: int, nd: int, dr: int, dc: i
     assert(sb[0] == 0x24 && sb[1 + nl] == 0x24);
 }
 
+
+// ---- a call of a function whose name has the shape LETTERS DIGITS LETTERS, e.g. DEC2BIN(): "function names ... are reproduced unchanged"
+/// sb = L1 (a upper-case letters) ++ D (b digits) ++ L2 (c upper-case letters) ++ "()"
+pub open spec fn call_shape(sb: Seq<u8>, a: int, b: int, c: int) -> bool {
+    1 <= a <= 6 && 1 <= b <= 9 && 1 <= c <= 6 && sb.len() == a + b + c + 2
+    && all_upper(sb.subrange(0, a)) && all_digits(sb.subrange(a, a + b)) && all_upper(sb.subrange(a + b, a + b + c))
+    && sb[a + b + c] == 0x28 && sb[a + b + c + 1] == 0x29
+}
+/// state of the scanner after k chars of such a formula
+pub open spec fn call_state(sb: Seq<u8>, a: int, b: int, c: int, k: int, res: Seq<u8>, cell: Seq<u8>, is_cell_row: bool) -> bool {
+    if k <= a { res.len() == 0 && cell == sb.subrange(0, k) && !is_cell_row }
+    else if k <= a + b { res.len() == 0 && cell == sb.subrange(0, k) && is_cell_row }
+    else if k <= a + b + c { res == sb.subrange(0, a + b) && cell == sb.subrange(a + b, k) && !is_cell_row }
+    else { res == sb.subrange(0, k) && cell.len() == 0 && !is_cell_row }
+}
+proof fn lemma_call_char_class(sb: Seq<u8>, a: int, b: int, c: int, j: int)
+    requires call_shape(sb, a, b, c), 0 <= j < sb.len(),
+    ensures
+        j < a ==> is_upper(sb[j]),
+        a <= j < a + b ==> is_digit(sb[j]),
+        a + b <= j < a + b + c ==> is_upper(sb[j]),
+        j == a + b + c ==> sb[j] == 0x28,
+        j == a + b + c + 1 ==> sb[j] == 0x29,
+{
+    if j < a { assert(is_upper(sb.subrange(0, a)[j])); }
+    if a <= j < a + b { assert(is_digit(sb.subrange(a, a + b)[j - a])); }
+    if a + b <= j < a + b + c { assert(is_upper(sb.subrange(a + b, a + b + c)[j - (a + b)])); }
+}
+proof fn lemma_call_letter(sb: Seq<u8>, a: int, b: int, c: int, j: int, res0: Seq<u8>, cell0: Seq<u8>, icr0: bool)
+    requires call_shape(sb, a, b, c), 0 <= j < sb.len(), call_state(sb, a, b, c, j, res0, cell0, icr0), is_letter(sb[j]),
+    ensures call_state(sb, a, b, c, j + 1, if icr0 { res0 + cell0 } else { res0 }, if icr0 { seq![sb[j]] } else { cell0.push(sb[j]) }, false),
+{
+    lemma_call_char_class(sb, a, b, c, j);
+    assert(j < a || a + b <= j < a + b + c);
+    if j < a {
+        assert(sb.subrange(0, j + 1) =~= sb.subrange(0, j).push(sb[j]));
+    } else if j == a + b {
+        assert(icr0);
+        assert(res0 + cell0 =~= sb.subrange(0, a + b));
+        assert(seq![sb[j]] =~= sb.subrange(a + b, j + 1));
+    } else {
+        assert(sb.subrange(a + b, j + 1) =~= sb.subrange(a + b, j).push(sb[j]));
+    }
+}
+proof fn lemma_call_digit(sb: Seq<u8>, a: int, b: int, c: int, j: int, res0: Seq<u8>, cell0: Seq<u8>, icr0: bool)
+    requires call_shape(sb, a, b, c), 0 <= j < sb.len(), call_state(sb, a, b, c, j, res0, cell0, icr0), is_digit(sb[j]),
+    ensures call_state(sb, a, b, c, j + 1, res0, cell0.push(sb[j]), true),
+{
+    lemma_call_char_class(sb, a, b, c, j);
+    assert(a <= j < a + b);
+    assert(sb.subrange(0, j + 1) =~= sb.subrange(0, j).push(sb[j]));
+}
+/// `(` meets the pending letters-only cell L2, `)` an empty one: neither is a cell name, both are copied
+proof fn lemma_call_other(sb: Seq<u8>, a: int, b: int, c: int, j: int, res0: Seq<u8>, cell0: Seq<u8>, icr0: bool)
+    requires call_shape(sb, a, b, c), 0 <= j < sb.len(), call_state(sb, a, b, c, j, res0, cell0, icr0), !is_letter(sb[j]), !is_digit(sb[j]),
+    ensures
+        a1_small(cell0, cell0.len() as int), dec10(cell0.subrange(cell0.len() as int, cell0.len() as int)) == 0,
+        call_state(sb, a, b, c, j + 1, (res0 + cell0).push(sb[j]), Seq::<u8>::empty(), false),
+{
+    lemma_call_char_class(sb, a, b, c, j);
+    assert(j == a + b + c || j == a + b + c + 1) by {
+        if j < a { assert(is_upper(sb[j])); } else if j < a + b { assert(is_digit(sb[j])); } else if j < a + b + c { assert(is_upper(sb[j])); }
+    }
+    let n0 = cell0.len() as int;
+    assert(cell0.subrange(n0, n0) =~= Seq::<u8>::empty());
+    assert(cell0.subrange(0, n0) =~= cell0);
+    if j == a + b + c {
+        assert(res0 == sb.subrange(0, a + b) && cell0 == sb.subrange(a + b, j) && !icr0);
+        assert(n0 == c);
+        assert forall|i: int| 0 <= i < n0 implies is_letter(#[trigger] cell0[i]) by { assert(is_upper(sb.subrange(a + b, a + b + c)[i])); }
+        assert(all_letters(cell0.subrange(0, n0)));
+        assert(all_digits(cell0.subrange(n0, n0)));
+        assert(a1_shape(cell0, n0));
+        assert((res0 + cell0).push(sb[j]) =~= sb.subrange(0, j + 1));
+    } else {
+        assert(res0 == sb.subrange(0, j) && n0 == 0);
+        assert(cell0 =~= Seq::<u8>::empty());
+        assert(a1_shape(cell0, 0));
+        assert((res0 + cell0).push(sb[j]) =~= sb.subrange(0, j + 1));
+    }
+}
+
 //@@ fn src/xlsx/mod.rs replace_cell_names props=C15,C06 ret=r
 //@@ sig
     requires
@@ -460,6 +542,9 @@ proof fn lemma_absolute_translated(sb: Seq<u8>, nl: int, nd: int, dr: int, dc: i
             && single_in_sheet(lowb(s@), p, nl, m, offset.0 as int, offset.1 as int) ==>
             r is Ok && all_ascii(r->Ok_0@)
             && exists|nlo: int| #[trigger] single_translated(lowb(r->Ok_0@), nlo, lowb(s@), p, nl, m, offset.0 as int, offset.1 as int),
+        //# C15.function_name_digit_letter_kept
+        forall|a: int, b: int, c: int| all_ascii(s@) && #[trigger] call_shape(lowb(s@), a, b, c) ==>
+            r is Ok && all_ascii(r->Ok_0@) && lowb(r->Ok_0@) == lowb(s@),
 //@@ body
     broadcast use {axiom_iter_items_vec_u8, lemma_bytes_ascii_add, lemma_bytes_ascii_push, lemma_lowb_ascii, lemma_all_ascii_push};
     let ghost sb = lowb(s@);
@@ -469,6 +554,8 @@ proof fn lemma_absolute_translated(sb: Seq<u8>, nl: int, nd: int, dr: int, dc: i
         assert(lowb(cell@) =~= Seq::<u8>::empty());
         assert forall|p: int, nl: int, m: int, nd: int| #[trigger] single_ref(sb, p, nl, m, nd) implies
             single_state(sb, p, nl, m, 0, res@, lowb(cell@), is_cell_row) by { assert(sb.subrange(0, 0) =~= Seq::<u8>::empty()); }
+        assert forall|a: int, b: int, c: int| #[trigger] call_shape(sb, a, b, c) implies
+            call_state(sb, a, b, c, 0, res@, lowb(cell@), is_cell_row) by { assert(sb.subrange(0, 0) =~= Seq::<u8>::empty()); }
     }
 //@@ r6 0
 //@@ loop 0
@@ -481,6 +568,8 @@ proof fn lemma_absolute_translated(sb: Seq<u8>, nl: int, nd: int, dr: int, dc: i
             sb == lowb(s@),
             all_ascii(s@) ==> forall|p: int, nl: int, m: int, nd: int| #[trigger] single_ref(sb, p, nl, m, nd) ==>
                 !in_quote && single_state(sb, p, nl, m, k, res@, lowb(cell@), is_cell_row),
+            all_ascii(s@) ==> forall|a: int, b: int, c: int| #[trigger] call_shape(sb, a, b, c) ==>
+                !in_quote && call_state(sb, a, b, c, k, res@, lowb(cell@), is_cell_row),
         ensures k == s@.len(),
         decreases s@.len() - k,
 //@@ before /if c == /
@@ -494,9 +583,15 @@ proof fn lemma_absolute_translated(sb: Seq<u8>, nl: int, nd: int, dr: int, dc: i
             assert forall|p: int, nl: int, m: int, nd: int| all_ascii(s@) && #[trigger] single_ref(sb, p, nl, m, nd) implies c != '"' by {
                 lemma_single_char_class(sb, p, nl, m, nd, k - 1);
             }
+            assert forall|a: int, b: int, c2: int| all_ascii(s@) && #[trigger] call_shape(sb, a, b, c2) implies c != '"' by {
+                lemma_call_char_class(sb, a, b, c2, k - 1);
+            }
         }
 //@@ before /continue;/
-            proof { assert(all_ascii(s@) ==> forall|p: int, nl: int, m: int, nd: int| !#[trigger] single_ref(sb, p, nl, m, nd)); }
+            proof {
+                assert(all_ascii(s@) ==> forall|p: int, nl: int, m: int, nd: int| !#[trigger] single_ref(sb, p, nl, m, nd));
+                assert(all_ascii(s@) ==> forall|a: int, b: int, c2: int| !#[trigger] call_shape(sb, a, b, c2));
+            }
 //@@ after /cell\.push\(c\);/#0of2
             proof {
                 if all_ascii(s@) {
@@ -505,6 +600,11 @@ proof fn lemma_absolute_translated(sb: Seq<u8>, nl: int, nd: int, dr: int, dc: i
                         lemma_step_letter(sb, p, nl, m, nd, k - 1, res0, lowb(cell0), icr0);
                         assert(!icr0);
                         assert(lowb(cell@) =~= lowb(cell0).push(c as u8));
+                    }
+                    assert forall|a: int, b: int, c2: int| #[trigger] call_shape(sb, a, b, c2) implies
+                        !in_quote && call_state(sb, a, b, c2, k, res@, lowb(cell@), is_cell_row) by {
+                        lemma_call_letter(sb, a, b, c2, k - 1, res0, lowb(cell0), icr0);
+                        if icr0 { assert(lowb(cell@) =~= seq![c as u8]); } else { assert(lowb(cell@) =~= lowb(cell0).push(c as u8)); }
                     }
                 }
             }
@@ -516,6 +616,10 @@ proof fn lemma_absolute_translated(sb: Seq<u8>, nl: int, nd: int, dr: int, dc: i
                         !in_quote && single_state(sb, p, nl, m, k, res@, lowb(cell@), is_cell_row) by {
                         lemma_step_digit(sb, p, nl, m, nd, k - 1, res0, lowb(cell0), icr0);
                     }
+                    assert forall|a: int, b: int, c2: int| #[trigger] call_shape(sb, a, b, c2) implies
+                        !in_quote && call_state(sb, a, b, c2, k, res@, lowb(cell@), is_cell_row) by {
+                        lemma_call_digit(sb, a, b, c2, k - 1, res0, lowb(cell0), icr0);
+                    }
                 }
             }
 //@@ before /if let Ok\(cell_name\) = /#0of2
@@ -524,6 +628,10 @@ proof fn lemma_absolute_translated(sb: Seq<u8>, nl: int, nd: int, dr: int, dc: i
                     assert forall|p: int, nl: int, m: int, nd: int| #[trigger] single_ref(sb, p, nl, m, nd) implies
                         a1_small(lowb(cell0), cell0.len() as int) && dec10(lowb(cell0).subrange(cell0.len() as int, cell0.len() as int)) == 0 by {
                         lemma_step_dollar(sb, p, nl, m, nd, k - 1, res0, lowb(cell0), icr0);
+                    }
+                    assert forall|a: int, b: int, c2: int| #[trigger] call_shape(sb, a, b, c2) implies
+                        a1_small(lowb(cell0), cell0.len() as int) && dec10(lowb(cell0).subrange(cell0.len() as int, cell0.len() as int)) == 0 by {
+                        lemma_call_other(sb, a, b, c2, k - 1, res0, lowb(cell0), icr0);
                     }
                 }
             }
@@ -535,6 +643,11 @@ proof fn lemma_absolute_translated(sb: Seq<u8>, nl: int, nd: int, dr: int, dc: i
                         !in_quote && single_state(sb, p, nl, m, k, res@, lowb(cell@), is_cell_row) by {
                         lemma_step_dollar(sb, p, nl, m, nd, k - 1, res0, lowb(cell0), icr0);
                         assert(res@ == (res0 + lowb(cell0)).push(0x24));
+                    }
+                    assert forall|a: int, b: int, c2: int| #[trigger] call_shape(sb, a, b, c2) implies
+                        !in_quote && call_state(sb, a, b, c2, k, res@, lowb(cell@), is_cell_row) by {
+                        lemma_call_other(sb, a, b, c2, k - 1, res0, lowb(cell0), icr0);
+                        assert(res@ == (res0 + lowb(cell0)).push(sb[k - 1]));
                     }
                 }
             }
@@ -548,6 +661,9 @@ proof fn lemma_absolute_translated(sb: Seq<u8>, nl: int, nd: int, dr: int, dc: i
                 cell1.len() > 0 && (m == 1 ==> a1_small(lowb(cell1), 0) && res1 + lowb(cell1) == sb)
                 && (m == 0 ==> plain_ref(cell1, nl) && res1 == sb.subrange(0, p) && ref_row(cell1, nl) == single_row(sb, p, nl, m) && ref_col(cell1, nl) == single_col(sb, p, nl)) by {
                 lemma_single_final(sb, p, nl, m, nd, res1, lowb(cell1), is_cell_row);
+            }
+            assert forall|a: int, b: int, c2: int| #[trigger] call_shape(sb, a, b, c2) implies cell1.len() == 0 && res1 == sb by {
+                assert(sb.subrange(0, sb.len() as int) =~= sb);
             }
         }
     }
@@ -580,6 +696,15 @@ verif_low_bytes(cell.as_slice())
 verif_low_bytes(cell.as_slice())
 //@@ end
 proof fn witness_replace_cell_names() { assert(offset_small((0i64, 3i64))); }
+/// the function-call shape is inhabited: "DEC2BIN()"
+proof fn witness_call_shape()
+    ensures call_shape(seq![0x44u8, 0x45, 0x43, 0x32, 0x42, 0x49, 0x4e, 0x28, 0x29], 3, 1, 3),
+{
+    let v = seq![0x44u8, 0x45, 0x43, 0x32, 0x42, 0x49, 0x4e, 0x28, 0x29];
+    assert(v.subrange(0, 3) =~= seq![0x44u8, 0x45, 0x43]);
+    assert(v.subrange(3, 4) =~= seq![0x32u8]);
+    assert(v.subrange(4, 7) =~= seq![0x42u8, 0x49, 0x4e]);
+}
 /// the single-reference shapes are inhabited: "$B$7" (absolute), "AB12" (relative)
 proof fn witness_single_ref()
     ensures single_ref(seq![0x24u8, 0x42, 0x24, 0x37], 1, 1, 1, 1), single_ref(seq![0x41u8, 0x42, 0x31, 0x32], 0, 2, 0, 2),
